@@ -34,14 +34,11 @@ BAND = 1e-6         # guard band around the thresholds of the tolerance-guarded 
 
 # functions known to raise for EVERY input under the installed NumPy 2.5 / SciPy 1.18 (DESIGN.md section 7, F8):
 # reported as environmental.  Any OTHER function that raises for every input is a violation.
-KNOWN_ENV = {
-    "learner2D.choose_point_in_triangle": "ValueError",
-    "learner2D.deviations": "AttributeError",
-    "learner2D.default_loss": "AttributeError",
-    "learner2D.resolution_loss_function()": "AttributeError",
-    "learner2D.thresholded_loss_function()": "AttributeError",
-    "float(learnerND.std_loss)": "TypeError",
-}
+# Functions that raised for EVERY input under the installed NumPy 2.5 / SciPy 1.18 when this check was first built
+# (learner2D.choose_point_in_triangle, deviations, default_loss, resolution/thresholded loss, float(learnerND.std_loss)).
+# They were repaired in /repo (fix: 6bbcd68, 96c1a46, 21a0c15), so nothing is whitelisted any more: a function that raises
+# for every valid input is reported as `always_raises`.
+KNOWN_ENV = {}
 
 
 def mods():
